@@ -28,6 +28,7 @@ try:
     res['check_lines'] = [l for l in out.splitlines() if l.startswith('VIOLATION') or l.startswith('KNOWN')][:5]
 finally:
     sh('git -C /repo checkout -- .')
+    sh('git -C /verif checkout -- coq/Gen')      # files regenerated from the mutated source must not survive
 dst = '/verif/seeded/%s-%s' % (prop, k)
 os.makedirs(dst, exist_ok=True)
 shutil.copy(os.path.join(src, 'patch.diff'), dst); shutil.copy(os.path.join(src, 'demo.py'), dst)
